@@ -1,10 +1,12 @@
 (* C19 -- property theorems only.  Each is closed by `exact` of a lemma from proofs/ and
    followed by Print Assumptions. *)
-From Coq Require Import List ZArith String.
-From Dagrt Require Import GenC19 Print Parse PrintParseRefute.
+From Coq Require Import List ZArith String Ascii.
+Import ListNotations.
+From Dagrt Require Import GenC19 Print Parse PrintParseRefute PrintParseProofs LexProofs.
 
 (* The property at full strength (on the text, for every structurally sane expression with
-   lexable names).  It is FALSE of the unchanged code: C19_roundtrip_refuted. *)
+   lexable names).  It is FALSE of the unchanged code: C19_roundtrip_refuted and the three
+   further refutations below; the proved theorem is C19_roundtrip_partial. *)
 Definition C19_full_statement : Prop :=
   forall e, wf_expr e = true -> wf_names e = true ->
   exists e', parse_string (print_string e) = Ok e'
@@ -13,6 +15,64 @@ Definition C19_full_statement : Prop :=
              /\ forall rho Ffun Fsub Fquot Fnegpow,
                   eval rho Ffun Fsub Fquot Fnegpow e' = eval rho Ffun Fsub Fquot Fnegpow e.
 
+(* (a**2)**3 prints a**2**3 = a**(2**3): 64 vs 256 *)
 Theorem C19_roundtrip_refuted : ~ C19_full_statement.
 Proof. exact refuted_pow. Qed.
 Print Assumptions C19_roundtrip_refuted.
+
+(* a < (b == b) prints a < b == b = (a < b) == b *)
+Theorem C19_refuted_comparison_right : ~ C19_full_statement.
+Proof. exact refuted_cmp. Qed.
+Print Assumptions C19_refuted_comparison_right.
+
+(* f(x if c else y, z): the else-branch swallows ", z" *)
+Theorem C19_refuted_if_before_comma : ~ C19_full_statement.
+Proof. exact refuted_if. Qed.
+Print Assumptions C19_refuted_if_before_comma.
+
+(* a + True: the parser asserts *)
+Theorem C19_refuted_bool_operand : ~ C19_full_statement.
+Proof. exact refuted_bool. Qed.
+Print Assumptions C19_refuted_bool_operand.
+
+(* For every printable expression (structurally sane and none of the four shapes above), the
+   parser -- with the fuel dagrt.expression.parse's model gives it, so in particular without
+   running out of fuel -- reads the printed tokens (blanks included) back as an expression that
+   prints identically at every precedence and with or without blanks, lists the same variables
+   in the same order and has the same value under every valuation and every interpretation of
+   user functions, subscripting, true division and negative powers.
+   Missing w.r.t. the full statement: it is about the TOKEN list `print [TSp] PR_NONE e`, whose
+   text is print_string e; that the lexer returns exactly these tokens for that text
+   (for expressions with wf_names) is checked by computation on every case of every run and
+   proved only for back-tick quoted names (C19_backticks). *)
+Theorem C19_roundtrip_partial :
+  forall e, printable e = true ->
+  exists e', parse_tokens (print [TSp] PR_NONE e) = Ok e'
+             /\ (forall sp q, print sp q e' = print sp q e)
+             /\ vars e' = vars e
+             /\ forall rho Ffun Fsub Fquot Fnegpow,
+                  eval rho Ffun Fsub Fquot Fnegpow e' = eval rho Ffun Fsub Fquot Fnegpow e.
+Proof. exact roundtrip_partial. Qed.
+Print Assumptions C19_roundtrip_partial.
+
+(* the expression returned is the parser's normal form of e, and it is in normal form *)
+Theorem C19_roundtrip_normal_form :
+  forall e, printable e = true -> parse_tokens (print [TSp] PR_NONE e) = Ok (norm e).
+Proof. exact roundtrip_tokens. Qed.
+Print Assumptions C19_roundtrip_normal_form.
+
+(* "`n`" denotes the variable n, for every n over the alphabet of the back-tick regexp
+   (on the text: lexer, parser and remove_backticks) *)
+Theorem C19_backticks :
+  forall n, string_forallb is_bt_char n = true -> parse_string (String "`"%char (n ++ "`")%string) = Ok (EVar n).
+Proof. exact backticks. Qed.
+Print Assumptions C19_backticks.
+
+(* ... also inside an expression: un-quoting undoes quoting of every name, subscripts included.
+   This needs remove_backticks to let pymbolic's SubstitutionMapper descend into subscripts
+   (GenC19.unbt_descends_subscript, read off dagrt/expression.py); on the tree without
+   fixes/C19_backticks_in_subscript.patch this theorem does not check (witness "`a`[`i`]"). *)
+Theorem C19_backticks_in_context :
+  forall e, unbt unbt_descends_subscript (quote e) = e.
+Proof. exact (backticks_in_context eq_refl). Qed.
+Print Assumptions C19_backticks_in_context.
